@@ -14,6 +14,9 @@ sys.path.insert(0, ROOT)
 
 from vlib.report import Report, EXIT_HARNESS  # noqa: E402
 
+PY311 = "/opt/veriftools/pyvenv/bin/python"          # CPython 3.11.7 with z3 (tooling venv); stackscope via PYTHONPATH=/repo
+LEG311 = {"C01", "C02", "C08", "C20"}
+
 
 def main() -> int:
     ap = argparse.ArgumentParser()
@@ -41,6 +44,13 @@ def main() -> int:
     if args.replay:
         with open(args.replay) as f:
             rec = json.load(f)
+        want = rec.get("interpreter")
+        have = ".".join(map(str, sys.version_info[:2]))
+        if want and want != have and want == "3.11" and os.path.exists(PY311):
+            import subprocess
+
+            env = dict(os.environ, PYTHONPATH="/repo:" + ROOT, VERIF_LEG="311")
+            return subprocess.run([PY311, "-m", "vlib.main", pid, "--replay", args.replay], cwd=ROOT, env=env).returncode
         out = mod.replay(rec["case"])
         print(json.dumps(out, indent=1, default=repr))
         if out.get("status") == "reproduces":
@@ -55,6 +65,20 @@ def main() -> int:
 
         traceback.print_exc()
         rep.harness_error(f"harness crashed: {ex!r}")
+    # the version-specific properties get a second leg under CPython 3.11 in the thorough tier
+    if args.tier == "thorough" and pid in LEG311 and not os.environ.get("VERIF_LEG"):
+        if os.path.exists(PY311):
+            import subprocess
+
+            env = dict(os.environ, PYTHONPATH="/repo:" + ROOT, VERIF_LEG="311", VERIF_TIER="thorough")
+            try:
+                r = subprocess.run([PY311, "-W", "ignore::DeprecationWarning", "-m", "vlib.main", pid, "--tier", "thorough"],
+                                   cwd=ROOT, env=env, capture_output=True, text=True, timeout=3300)
+                rep.merge_leg("311", r.returncode, r.stdout, r.stderr)
+            except subprocess.TimeoutExpired:
+                rep.mark_inconclusive("[CPython 3.11 leg]", "timed out")
+        else:
+            rep.mark_inconclusive("[CPython 3.11 leg]", f"{PY311} not present")
     return rep.finish()
 
 
